@@ -38,7 +38,8 @@ fn run_one(v: &Value, out: &mut Vec<String>) {
     let real_pid = p.pid().unwrap() as i32;
     let epoch = unsafe { EPOCH };
     let mut sim = Box::new(PSim::new(real_pid, epoch));
-    let stat = |x: &Value| Status { exited: x["k"].as_str().unwrap() == "exited", val: x["v"].as_i64().unwrap() as i32 };
+    let stat = |x: &Value| Status { exited: x["k"].as_str().unwrap() == "exited", val: x["v"].as_i64().unwrap() as i32,
+        core: x["core"].as_bool().unwrap_or(false) };
     if let Some(at) = v["exit"]["at"].as_u64() {
         sim.exit_at = Some((at, stat(&v["exit"])));
     }
